@@ -61,6 +61,15 @@ pub fn handmade() -> Vec<(&'static str, &'static str)> {
         ("duplicate-label", "x1: nop\nx1: nop\n"),
         ("second-device", ".device ATmega8\n.device ATmega16\n"),
         ("pc-relative", "nop\nrjmp pc+2\nnop\nnop\n.dw pc\n"),
+        // failing programs with well-filled tables: an error text that enumerates a hash table would differ from build to build
+        ("undefined-macro-among-many", ".macro m_one\nnop\n.endm\n.macro m_two\nnop\n.endm\n.macro m_three\nnop\n.endm\n.macro m_four\nnop\n.endm\n.macro m_five\nnop\n.endm\n.macro m_six\nnop\n.endm\nm_one\nm_seven\n"),
+        ("undefined-symbol-among-many", ".equ s1=1\n.equ s2=2\n.equ s3=3\n.equ s4=4\n.equ s5=5\n.equ s6=6\n.equ s7=7\n.equ s8=8\n.set t1=1\n.set t2=2\n.set t3=3\nl1: nop\nl2: nop\nl3: nop\nl4: nop\nldi r16, s9\n"),
+        ("undefined-alias-among-many", ".def a1=r1\n.def a2=r2\n.def a3=r3\n.def a4=r4\n.def a5=r5\n.def a6=r6\n.def a7=r7\ninc a8\n"),
+        ("duplicate-label-among-many", "k1: nop\nk2: nop\nk3: nop\nk4: nop\nk5: nop\nk6: nop\nk7: nop\nk3: nop\nk5: nop\n"),
+        ("duplicate-set-among-many", ".equ u1=1\n.equ u2=2\n.equ u3=3\n.equ u4=4\n.equ u5=5\n.set u3=9\n.set u5=9\n"),
+        ("undefined-device-among-defines", "#define D1\n#define D2\n#define D3\n#define D4\n#define D5\n.device ATnothing\n"),
+        ("range-error-among-many", ".equ v1=1000\n.equ v2=2000\n.equ v3=3000\n.equ v4=4000\nldi r16, v1\nldi r17, v2\n"),
+        ("undef-unknown-among-many", ".def b1=r1\n.def b2=r2\n.def b3=r3\n.def b4=r4\n.def b5=r5\n.undef b9\n"),
     ]
 }
 
